@@ -1,6 +1,7 @@
 #!/usr/bin/env python3
 import json, sys
 pid, n = sys.argv[1], (sys.argv[2] if len(sys.argv) > 2 else "1")
+AVOID = sys.argv[3] if len(sys.argv) > 3 else ""
 for l in open('/verif/properties.jsonl'):
     p = json.loads(l)
     if p['id'] == pid:
@@ -27,4 +28,4 @@ Steps:
 3. Write the demonstration test; confirm it fails with the change; then take the source change out with `git diff > {wt}.patch && git checkout -- <changed files>` (keep the demo test; do NOT use `git stash`: the stash is shared between worktrees and other people are working in sibling worktrees), confirm the demo passes on the original code, and restore the change with `git apply {wt}.patch`.
 4. Leave the worktree with the change and the demonstration file in place (uncommitted is fine).
 
-Final answer (concise): the unified diff of the source change, the path of the demonstration test, the exact commands you ran with their pass/fail outcomes, and one paragraph on what the bug needs in order to manifest and which clause of the property it violates. If after honest effort you cannot find a change that the existing tests do not catch, say so and describe the closest candidates.""")
+""" + (("Already known ideas that you must NOT reuse (find a different kind of change, preferably in a different function or clause of the property): " + AVOID + "\n\n") if AVOID else "") + """Final answer (concise): the unified diff of the source change, the path of the demonstration test, the exact commands you ran with their pass/fail outcomes, and one paragraph on what the bug needs in order to manifest and which clause of the property it violates. If after honest effort you cannot find a change that the existing tests do not catch, say so and describe the closest candidates.""")
